@@ -54,6 +54,7 @@ EXN = {
     "InvalidWorkflowStatusTransition": "invalidWorkflowStatusTransition",
     "InvalidTaskStatusTransition": "invalidTaskStatusTransition",
     "InvalidEventType": "invalidEventType",
+    "TypeError": "typeError",
 }
 
 
@@ -353,6 +354,24 @@ def extract_tk_on_item_event(maxlen=2):
     return table, calls
 
 
+def extract_tk_on_item_event_nostaged():
+    """item event for a task that has no staged entry (get_staged_task returns None)"""
+    table = {}
+    for tk in ALL:
+        for es in ALL:
+            task = {"id": "t", "route": 0}
+            if tk != "null":
+                task["status"] = tk
+            s = Stub("running", {}, items=None)
+
+            def f():
+                m.TaskStateMachine.process_event(s, task, ev.TaskItemActionExecutionEvent(0, es))
+                return ("ok", task.get("status", "null"))
+
+            table[(tk, es)] = run(f)
+    return table
+
+
 def extract_tk_on_workflow_event():
     # summary: items = none (no staged entry or no items) | some (active, incomplete)
     table = {}
@@ -447,7 +466,7 @@ def main():
         w("")
     w("inductive Outcome where\n  | canceled | paused | incomplete | completed\n  deriving DecidableEq, Repr, Inhabited")
     w("instance : Enum Outcome := ⟨[.canceled, .paused, .incomplete, .completed], by intro a; cases a <;> simp⟩\n")
-    w("inductive Exn where\n  | invalidEvent | invalidStatus | invalidWorkflowStatusTransition | invalidTaskStatusTransition | invalidEventType | other\n  deriving DecidableEq, Repr, Inhabited\n")
+    w("inductive Exn where\n  | invalidEvent | invalidStatus | invalidWorkflowStatusTransition | invalidTaskStatusTransition | invalidEventType | typeError | other\n  deriving DecidableEq, Repr, Inhabited\n")
     w("inductive StepRes where\n  | ok (s : Status)\n  | raise (e : Exn)\n  deriving DecidableEq, Repr, Inhabited\n")
     w("inductive Cmd where\n%s\n  deriving DecidableEq, Repr, Inhabited" % "\n".join("  | %s_" % c for c in ENGINE))
     w("instance : Enum Cmd := ⟨[%s], by intro a; cases a <;> simp⟩" % ", ".join(".%s_" % c for c in ENGINE))
@@ -558,6 +577,17 @@ def main():
     w("def tkOnItemEvent (tk ev : Status) (active paused canceled failed incomplete : Bool) : StepRes :=\n  match tk with")
     for tk in ALL:
         w("  | %s => tkOnItemEvent_%s ev active paused canceled failed incomplete" % (lst(tk), CTOR[tk]))
+    w("")
+    tn = extract_tk_on_item_event_nostaged()
+    kv = {(lst(a), lst(b)): lres(v) for (a, b), v in tn.items()}
+    for tk in ALL:
+        kvr = {(lst(es),): lres(tn[(tk, es)]) for es in ALL}
+        rows, default = compress(kvr, 1)
+        w(emit_match("tkOnItemEventNoStaged_%s" % CTOR[tk], "(ev : Status) : StepRes", ["ev"], rows, default))
+    w("/-- item event for a task without a staged entry -/")
+    w("def tkOnItemEventNoStaged (tk ev : Status) : StepRes :=\n  match tk with")
+    for tk in ALL:
+        w("  | %s => tkOnItemEventNoStaged_%s ev" % (lst(tk), CTOR[tk]))
     w("")
     w("def itemSummary (others : List Status) : Bool × Bool × Bool × Bool × Bool :=\n"
       "  (others.any Status.isActive, others.any (fun x => x == .pending || x == .paused),\n"
